@@ -142,6 +142,7 @@ class SSHChannel(Generic[AnyStr], SSHPacketHandler):
         self._recv_buf_len = 0
 
         self._request_queue: List[Tuple[str, SSHPacket, bool]] = []
+        self._servicing_requests = False
 
         self._open_waiter: Optional[asyncio.Future[SSHPacket]] = None
         self._request_waiters: List[asyncio.Future[bool]] = []
@@ -489,19 +490,34 @@ class SSHChannel(Generic[AnyStr], SSHPacketHandler):
     def _service_next_request(self) -> None:
         """Process next item on channel request queue"""
 
-        request, packet, _ = self._request_queue[0]
+        # Go through the queue in a loop rather than by recursion from
+        # _report_response(), as any number of requests may be waiting
+        if self._servicing_requests:
+            return
 
-        name = '_process_' + map_handler_name(request) + '_request'
-        handler = cast(_RequestHandler, getattr(self, name, None))
+        self._servicing_requests = True
 
-        if handler:
-            result = cast(Optional[bool], handler(packet))
-        else:
-            self.logger.debug1('Received unknown channel request: %s', request)
-            result = False
+        try:
+            while self._request_queue:
+                request, packet, _ = self._request_queue[0]
 
-        if result is not None:
-            self._report_response(result)
+                name = '_process_' + map_handler_name(request) + '_request'
+                handler = cast(_RequestHandler, getattr(self, name, None))
+
+                if handler:
+                    result = cast(Optional[bool], handler(packet))
+                else:
+                    self.logger.debug1('Received unknown channel request: %s',
+                                       request)
+                    result = False
+
+                if result is None:
+                    # The response will be reported later
+                    break
+
+                self._report_response(result)
+        finally:
+            self._servicing_requests = False
 
     def _report_response(self, result: bool) -> None:
         """Report back the response to a previously issued channel request"""
